@@ -461,7 +461,12 @@ func (r Rule) canSplit(path string) bool {
 // based on rule.SplitPath.
 func (r Rule) splitPos(path string) int {
 	if httpserver.CaseSensitivePath {
-		return strings.Index(path, r.SplitPath)
+		if pos := strings.Index(path, r.SplitPath); pos >= 0 {
+			return pos
+		}
+		// Not found in the exact spelling. The extension test in ServeHTTP
+		// ignores letter case so that script.PHP is never handed to the
+		// static file server; the split has to find it as well.
 	}
 	return strings.Index(strings.ToLower(path), strings.ToLower(r.SplitPath))
 }
